@@ -104,6 +104,18 @@ def gen_vanilla(rng: random.Random, nq: int, n_blocks: int, use_load: bool = Fal
         prog.append([rng.choice(["bez", "bnz"]), [m, None]])
         gate()
         prog[br][1][1] = len(prog)
+    # sometimes a qubit is given back right after a two-qubit gate it took part in (`q1.cnot(q2); q1.free()`): what the other
+    # qubits hold - the electron included - is what the gate left there
+    if nq >= 2 and not use_load and rng.random() < 0.25:
+        a, b = rng.sample(range(nq), 2)
+        prog += [["set", [["Q", 0], a]], ["set", [["Q", 1], b]], [rng.choice(["cnot", "cphase"]), [["Q", 0], ["Q", 1]]]]
+        which = rng.choice([0, 0, 1])
+        if rng.random() < 0.6:
+            prog.append(["set", [["Q", which], [a, b][which]]])      # (the SDK writes the address again)
+        prog.append(["qfree", [["Q", which]]])
+        rest = [v for v in range(nq) if v != [a, b][which]]
+        if rng.random() < 0.5:
+            prog += [["set", [["Q", 0], rng.choice(rest)]], [rng.choice(SINGLE), [["Q", 0]]]]
     prog_len = len(prog)
     return prog, {"loaded_two_qubit": loaded_two_qubit, "len": prog_len}
 
